@@ -36,22 +36,25 @@ Definition lvl (k : tk) : N := match prec_of k with Some (p, _) => p | None => 0
 
 Definition binop_of_token (t : token) : option binop :=
   match t with
-  | TOp 124 => Some BOr
-  | TOp 94 => Some BXor
-  | TOp 38 => Some BAnd
+  | TOp c =>
+      if c =? 124 then Some BOr
+      else if c =? 94 then Some BXor
+      else if c =? 38 then Some BAnd
+      else if c =? 62 then Some BGt
+      else if c =? 60 then Some BLt
+      else if c =? 43 then Some BAdd
+      else if c =? 45 then Some BSub
+      else if c =? 42 then Some BMul
+      else if c =? 47 then Some BDiv
+      else None
   | TEq => Some BEq
-  | TOp 62 => Some BGt
-  | TOp 60 => Some BLt
   | TNe => Some BNe
   | TLe => Some BLe
   | TGe => Some BGe
-  | TOp 43 => Some BAdd
-  | TOp 45 => Some BSub
-  | TOp 42 => Some BMul
-  | TOp 47 => Some BDiv
   | TPow => Some BPow
   | _ => None
   end.
+
 
 Definition tk_of_binop (op : binop) : tk :=
   match op with
@@ -63,6 +66,23 @@ Definition tk_of_binop (op : binop) : tk :=
 (* ---------------------------------------------------------------- the reference parser *)
 Definition presult := res (past * list token).
 Definition syntax_error {A} : res A := ErrExn EXN_PARSE.
+(* failure of a sub-parser: running out of fuel stays visible, anything else is a syntax error *)
+Definition err_of {A B} (r : res A) : res B :=
+  match r with ErrFuel => ErrFuel | _ => syntax_error end.
+
+(* the rest of the tokens after the single-character operator c, if that is the next token *)
+Definition is_tok_op (c : N) (t : token) : bool :=
+  match t with TOp d => d =? c | _ => false end.
+Definition after_op (c : N) (ts : list token) : option (list token) :=
+  match ts with
+  | t :: r => if is_tok_op c t then Some r else None
+  | [] => None
+  end.
+Definition after_pow (ts : list token) : option (list token) :=
+  match ts with
+  | TPow :: r => Some r
+  | _ => None
+  end.
 
 Section Rec.
   (* the parser for sub-expressions: minimal precedence, tokens *)
@@ -74,33 +94,44 @@ Section Rec.
     | O => ErrFuel
     | S n' =>
         match rec 0 ts with
-        | Ok (a, TOp 44 :: r) =>
-            match pargs n' r with
-            | Ok (l, r') => Ok (a :: l, r')
-            | ErrFuel => ErrFuel
-            | _ => syntax_error
+        | Ok (a, r) =>
+            match after_op 44 r with
+            | Some r1 =>
+                match pargs n' r1 with
+                | Ok (l, r') => Ok (a :: l, r')
+                | e => err_of e
+                end
+            | None =>
+                match after_op 41 r with
+                | Some r1 => Ok ([a], r1)
+                | None => syntax_error
+                end
             end
-        | Ok (a, TOp 41 :: r) => Ok ([a], r)
-        | ErrFuel => ErrFuel
-        | _ => syntax_error
+        | e => err_of e
         end
     end.
 
   (* epair = '(' expr ',' expr ')' *)
   Definition pepair (ts : list token) : res ((past * past) * list token) :=
-    match ts with
-    | TOp 40 :: r =>
+    match after_op 40 ts with
+    | Some r =>
         match rec 0 r with
-        | Ok (e, TOp 44 :: r1) =>
-            match rec 0 r1 with
-            | Ok (c, TOp 41 :: r2) => Ok ((e, c), r2)
-            | ErrFuel => ErrFuel
-            | _ => syntax_error
+        | Ok (e, r1) =>
+            match after_op 44 r1 with
+            | Some r2 =>
+                match rec 0 r2 with
+                | Ok (c, r3) =>
+                    match after_op 41 r3 with
+                    | Some r4 => Ok ((e, c), r4)
+                    | None => syntax_error
+                    end
+                | e' => err_of e'
+                end
+            | None => syntax_error
             end
-        | ErrFuel => ErrFuel
-        | _ => syntax_error
+        | e' => err_of e'
         end
-    | _ => syntax_error
+    | None => syntax_error
     end.
 
   (* piecewise_list ')' *)
@@ -109,85 +140,114 @@ Section Rec.
     | O => ErrFuel
     | S n' =>
         match pepair ts with
-        | Ok (p, TOp 44 :: r) =>
-            match ppairs n' r with
-            | Ok (l, r') => Ok (p :: l, r')
-            | ErrFuel => ErrFuel
-            | _ => syntax_error
+        | Ok (p, r) =>
+            match after_op 44 r with
+            | Some r1 =>
+                match ppairs n' r1 with
+                | Ok (l, r') => Ok (p :: l, r')
+                | e => err_of e
+                end
+            | None =>
+                match after_op 41 r with
+                | Some r1 => Ok ([p], r1)
+                | None => syntax_error
+                end
             end
-        | Ok (p, TOp 41 :: r) => Ok ([p], r)
-        | ErrFuel => ErrFuel
-        | _ => syntax_error
+        | e => err_of e
         end
     end.
 
   (* everything that can start an expression: prefix operators, parentheses, leaves *)
   Definition primary (ts : list token) : presult :=
     match ts with
-    | TOp 45 :: r =>                                   (* '-' expr %prec UMINUS *)
-        match rec (lvl K_UMINUS) r with
-        | Ok (a, r') => Ok (PNeg a, r')
-        | e => e
-        end
-    | TOp 43 :: r => rec (lvl K_UPLUS) r               (* '+' expr %prec UPLUS : $$ = $2 *)
-    | TOp 126 :: r =>                                  (* '~' expr %prec NOT *)
-        match rec (lvl K_NOT) r with
-        | Ok (a, r') => Ok (PNot a, r')
-        | e => e
-        end
-    | TOp 40 :: r =>                                   (* '(' expr ')' : $$ = $2 *)
-        match rec 0 r with
-        | Ok (a, TOp 41 :: r') => Ok (a, r')
-        | ErrFuel => ErrFuel
-        | _ => syntax_error
-        end
+    | TOp c :: r =>
+        if c =? 45 then                                  (* '-' expr %prec UMINUS *)
+          match rec (lvl K_UMINUS) r with
+          | Ok (a, r') => Ok (PNeg a, r')
+          | e => err_of e
+          end
+        else if c =? 43 then                             (* '+' expr %prec UPLUS : $$ = $2 *)
+          match rec (lvl K_UPLUS) r with
+          | Ok (a, r') => Ok (a, r')
+          | e => err_of e
+          end
+        else if c =? 126 then                            (* '~' expr %prec NOT *)
+          match rec (lvl K_NOT) r with
+          | Ok (a, r') => Ok (PNot a, r')
+          | e => err_of e
+          end
+        else if c =? 40 then                             (* '(' expr ')' : $$ = $2 *)
+          match rec 0 r with
+          | Ok (a, r1) =>
+              match after_op 41 r1 with
+              | Some r' => Ok (a, r')
+              | None => syntax_error
+              end
+          | e => err_of e
+          end
+        else syntax_error
     | TNum s :: r => Ok (PNum s, r)
-    | TIdent f :: TOp 40 :: r =>
-        match pargs (S (List.length r)) r with
-        | Ok (l, r') => Ok (PCall f l, r')
-        | ErrFuel => ErrFuel
-        | _ => syntax_error
+    | TIdent f :: r =>
+        match after_op 40 r with
+        | Some r1 =>                                     (* IDENTIFIER '(' expr_list ')' *)
+            match pargs (S (List.length r1)) r1 with
+            | Ok (l, r') => Ok (PCall f l, r')
+            | e => err_of e
+            end
+        | None => Ok (PIdent f, r)
         end
-    | TIdent s :: r => Ok (PIdent s, r)
-    | TImpl s :: TPow :: r =>                          (* IMPLICIT_MUL POW expr (shift preferred) *)
-        match rec (lvl K_POW) r with
-        | Ok (e, r') => Ok (PImplPow s e, r')
-        | e => e
+    | TImpl s :: r =>
+        match after_pow r with
+        | Some r1 =>                                     (* IMPLICIT_MUL POW expr (shift preferred) *)
+            match rec (lvl K_POW) r1 with
+            | Ok (e, r') => Ok (PImplPow s e, r')
+            | e => err_of e
+            end
+        | None => Ok (PImpl s, r)
         end
-    | TImpl s :: r => Ok (PImpl s, r)
-    | TPiecewise :: TOp 40 :: r =>
-        match ppairs (S (List.length r)) r with
-        | Ok (l, r') => Ok (PPw l, r')
-        | ErrFuel => ErrFuel
-        | _ => syntax_error
+    | TPiecewise :: r =>
+        match after_op 40 r with
+        | Some r1 =>
+            match ppairs (S (List.length r1)) r1 with
+            | Ok (l, r') => Ok (PPw l, r')
+            | e => err_of e
+            end
+        | None => syntax_error
         end
     | _ => syntax_error
     end.
 
-  (* binary operators following a complete operand: an operator of precedence p is taken when
-     minp <= p; its right operand is parsed at p+1 (%left) or p (%right) *)
-  Fixpoint ploop (n : nat) (minp : N) (left : past) (ts : list token) : presult :=
+  (* the operator the loop may take next: (operator, its precedence level, the minimal precedence
+     of its right operand): p+1 for %left, p for %right *)
+  Definition next_binop (minp : N) (ts : list token) : option (binop * N * list token) :=
     match ts with
     | t :: r =>
         match binop_of_token t with
         | Some op =>
             match prec_of (tk_of_binop op) with
             | Some (p, a) =>
-                if minp <=? p then
-                  match n with
-                  | O => ErrFuel
-                  | S n' =>
-                      match rec (match a with AssocRight => p | _ => p + 1 end) r with
-                      | Ok (c, r') => ploop n' minp (PBin op left c) r'
-                      | e => e
-                      end
-                  end
-                else Ok (left, ts)
-            | None => Ok (left, ts)
+                if minp <=? p then Some (op, match a with AssocRight => p | _ => p + 1 end, r)
+                else None
+            | None => None
             end
-        | None => Ok (left, ts)
+        | None => None
         end
-    | [] => Ok (left, ts)
+    | [] => None
+    end.
+
+  (* binary operators following a complete operand *)
+  Fixpoint ploop (n : nat) (minp : N) (left : past) (ts : list token) : presult :=
+    match next_binop minp ts with
+    | Some (op, rp, r) =>
+        match n with
+        | O => ErrFuel
+        | S n' =>
+            match rec rp r with
+            | Ok (c, r') => ploop n' minp (PBin op left c) r'
+            | e => err_of e
+            end
+        end
+    | None => Ok (left, ts)
     end.
 End Rec.
 
@@ -197,7 +257,7 @@ Fixpoint pexpr (fuel : nat) (minp : N) (ts : list token) : presult :=
   | S f =>
       match primary (pexpr f) ts with
       | Ok (l, r) => ploop (pexpr f) (List.length r) minp l r
-      | e => e
+      | e => err_of e
       end
   end.
 
